@@ -7,6 +7,7 @@ That the real pipeline computes `eval` is NOT proved: it is checked by different
 (checks/src_corr.py) on every run.
 -/
 import NeverModel.Lemmas.SrcTop
+import NeverModel.Lemmas.SrcRange
 namespace Never.Src.C02
 open Never.Src
 
@@ -179,6 +180,280 @@ theorem parameter_shares_cell (p : Param) (l : Loc) (env : Env) (s : St) (v : Va
     bindParams [p] [l] env s = .ok ((p.name, l) :: env) s := by
   simp only [bindParams, convCell, bind_eq, M.bind, load, hv, hc, hd, pure, M.pure, List.isEmpty_nil, if_true]
 
+/-! ### ranges and slices
+
+The evaluator's rules for `[a .. b]`, `x[a .. b]`, indexing and iteration, stated against the index arithmetic of
+C12 (`Never.Idx.rangePos`, `rangeLen`, `sliceRange`; `Props/C12.lean` proves `range_denotation`, `slice_of_slice`,
+`range_deref_exact` about the C functions' model).  "No overflow" hypotheses exclude the places where the C code's
+`int` additions `from ± index` leave `int`. -/
+
+/-- **Range bounds right to left; a range holds the bound CELLS.**  `[a .. b]`: `b` is evaluated first, then `a` in the
+state `b` leaves; the range object refers to the very cells the two expressions evaluated to (nothing is copied: a
+later assignment to a variable used as a bound changes the range). -/
+theorem eval_order_range_bounds (n : Nat) (ctx : Ctx) (env : Env) (ea eb : Expr) (s s1 s2 : St) (la lb : Loc)
+    (hb : evalE (n + 1) ctx env eb s = .ok lb s1) (ha : evalE (n + 2) ctx env ea s1 = .ok la s2) :
+    evalE (n + 4) ctx env (.range [ea, eb]) s =
+      (do let o ← alloc (.rngObj #[la, lb]); alloc (.rng (some o))) s2 := by
+  simp only [evalE, evalArgs, bind_eq, M.bind, hb, ha, pure, M.pure]
+
+/-- a fault in the `to` bound: the `from` bound is never evaluated -/
+theorem eval_order_range_fault_right (n : Nat) (ctx : Ctx) (env : Env) (ea eb : Expr) (s s1 : St) (ex : Exc)
+    (hb : evalE (n + 1) ctx env eb s = .exc ex s1) :
+    evalE (n + 4) ctx env (.range [ea, eb]) s = .exc ex s1 := by
+  simp only [evalE, evalArgs, bind_eq, M.bind, hb, pure, M.pure]
+
+/-- `x[a .. b]`: the sliced expression `x` FIRST, then the bounds (right to left): a fault in `x` leaves the bounds
+unevaluated, a fault in the bounds happens in the state `x` left -/
+theorem eval_order_slice (n : Nat) (ctx : Ctx) (env : Env) (x : Expr) (bounds : List Expr) (s s1 s2 : St) (ex : Exc) (lx : Loc) :
+    (evalE n ctx env x s = .exc ex s1 → evalE (n + 1) ctx env (.slice x bounds) s = .exc ex s1) ∧
+    (evalE n ctx env x s = .ok lx s1 → evalArgs n ctx env bounds s1 = .exc ex s2 →
+      evalE (n + 1) ctx env (.slice x bounds) s = .exc ex s2) := by
+  constructor
+  · intro h; simp only [evalE, bind_eq, M.bind, h]
+  · intro h1 h2; simp only [evalE, bind_eq, M.bind, h1, h2]
+
+/-- **A range sees an assignment to a variable used as its bound.**  The range object `o` holds the cells `lf`, `lt`;
+after a store of `v` into `lt` (an assignment to the variable that was the `to` bound) its bounds are `(a, v)`. -/
+theorem range_sees_assignment_to_bound (s : St) (o lf lt : Loc) (a b v : Int32)
+    (ho : s.mem[o]? = some (.rngObj #[lf, lt])) (hf : s.mem[lf]? = some (.int a)) (ht : s.mem[lt]? = some (.int b))
+    (hne : lf ≠ lt) :
+    ∀ s', store lt (.int v) s = .ok () s' → rngBounds o s' = .ok [(a.toInt, v.toInt)] s' := by
+  intro s' hs
+  simp only [store] at hs
+  injection hs with _ h2
+  have hlt : lt < s.mem.size := by
+    cases h : s.mem[lt]? with
+    | none => rw [h] at ht; cases ht
+    | some x => exact (Array.getElem?_eq_some_iff.mp h).1
+  have hol : o ≠ lt := by
+    intro heq; rw [heq, ht] at ho; cases ho
+  apply rngBounds_ok s' o lf lt a v
+  · rw [← h2]; simp only [Array.setIfInBounds, hlt, dite_true, Array.getElem?_set, Ne.symm hol, if_false]; exact ho
+  · rw [← h2]; simp only [Array.setIfInBounds, hlt, dite_true, Array.getElem?_set, Ne.symm hne, if_false]; exact hf
+  · rw [← h2]; simp [Array.setIfInBounds, hlt]
+
+/-- **`r[i]` on a range is C12's position `i`.**  For the range object `o` with bound cells holding `a`, `b`, indexing
+with `i` (no `int` overflow in `a ± i`): when `0 ≤ i < rangeLen a b` the result is a fresh 1-element int array holding
+`rangePos a b i` — exactly `Idx.rangeDerefIndex` / `Idx.range_deref_exact` of C12 — and `index_out_of_bounds`
+otherwise (negative index or beyond `to`); the store is otherwise unchanged. -/
+theorem range_index_denotation (s : St) (o lf lt : Loc) (a b : Int32) (i : Int)
+    (ho : s.mem[o]? = some (.rngObj #[lf, lt])) (hf : s.mem[lf]? = some (.int a)) (ht : s.mem[lt]? = some (.int b))
+    (hov : inInt32 (a.toInt + i) = true ∧ inInt32 (a.toInt - i) = true) :
+    rangeDeref (some o) [i] s =
+      if 0 ≤ i ∧ i < (Idx.rangeLen a.toInt b.toInt : Int) then
+        .ok (s.mem.size + 2) { s with mem := ((s.mem.push (.int (Int32.ofInt (Idx.rangePos a.toInt b.toInt i)))).push
+          (.arrObj [1] #[s.mem.size])).push (.arr (some (s.mem.size + 1))) }
+      else .exc .index_out_of_bounds { s with raised := .index_out_of_bounds :: s.raised } := by
+  by_cases hc : 0 ≤ i ∧ i < (Idx.rangeLen a.toInt b.toInt : Int)
+  · simp only [rangeDeref, bind_eq, M.bind, rngBounds_ok s o lf lt a b ho hf ht, rangePositions, sliceRangeM_single _ _ _ hov,
+      if_pos hc, pure, M.pure, allocInts, alloc, List.length_cons, List.length_nil, Array.size_push]
+  · simp only [rangeDeref, bind_eq, M.bind, rngBounds_ok s o lf lt a b ho hf ht, rangePositions, sliceRangeM_single _ _ _ hov,
+      if_neg hc]
+    rfl
+
+/-- the same statement through C12's model of `vm_execute_range_deref`: the evaluator succeeds exactly when
+`Idx.rangeDerefIndex` does, with its result -/
+theorem range_index_matches_idx (s : St) (o lf lt : Loc) (a b : Int32) (i : Int)
+    (ho : s.mem[o]? = some (.rngObj #[lf, lt])) (hf : s.mem[lf]? = some (.int a)) (ht : s.mem[lt]? = some (.int b))
+    (hov : inInt32 (a.toInt + i) = true ∧ inInt32 (a.toInt - i) = true) (r : Int) :
+    Idx.rangeDerefIndex a.toInt b.toInt i = .ok r ↔
+      ∃ l s', rangeDeref (some o) [i] s = .ok l s' ∧ s'.mem[s.mem.size]? = some (.int (Int32.ofInt r)) ∧
+        r = Idx.rangePos a.toInt b.toInt i := by
+  rw [Idx.range_deref_exact, range_index_denotation s o lf lt a b i ho hf ht hov]
+  constructor
+  · rintro ⟨h0, h1, h2⟩
+    refine ⟨_, _, by rw [if_pos ⟨h0, h1⟩], ?_, h2⟩
+    subst h2
+    simp [Array.getElem?_push]
+    omega
+  · rintro ⟨l, s', h, _, h2⟩
+    by_cases hc : 0 ≤ i ∧ i < (Idx.rangeLen a.toInt b.toInt : Int)
+    · exact ⟨hc.1, hc.2, h2⟩
+    · rw [if_neg hc] at h; cases h
+
+/-- **Slicing an array does not copy and does not check.**  `arr[a .. b]` on a non-nil array builds a slice that refers to
+the array OBJECT `ao` itself and to the range object of the bounds, whatever the bounds are (`SLICE_ARRAY` has no bounds
+check; the elements are checked when they are used). -/
+theorem slice_of_array_shares_object (s : St) (ao rb : Loc) :
+    sliceOf (.arr (some ao)) rb s =
+      .ok (s.mem.size + 1) { s with mem := (s.mem.push (.slcObj ao rb)).push (.slc (some s.mem.size)) } := by
+  simp only [sliceOf, bind_eq, M.bind, alloc, Array.size_push]
+
+/-- **A slice aliases its array.**  Element `i` of the slice `arr[a .. b]` (slice object `so` over array object `ao`, bound
+cells holding `a`, `b`; no `int` overflow in `a ± i`) IS the cell of element `rangePos a b i` of the array: `s[i]` and
+`arr[rangePos a b i]` evaluate to the same location in the same state — so a store through the array is read through
+the slice and a store through the slice is read through the array; outside `0 ≤ i < rangeLen a b` the access raises
+`index_out_of_bounds`; a position that is not an element of the array raises it inside `arrDeref`. -/
+theorem slice_aliases_array (s : St) (so ao ro lf lt : Loc) (a b : Int32) (i : Int)
+    (hs : s.mem[so]? = some (.slcObj ao ro)) (hr : s.mem[ro]? = some (.rngObj #[lf, lt]))
+    (hf : s.mem[lf]? = some (.int a)) (ht : s.mem[lt]? = some (.int b))
+    (hov : inInt32 (a.toInt + i) = true ∧ inInt32 (a.toInt - i) = true) :
+    sliceDeref (some so) [i] s =
+      if 0 ≤ i ∧ i < (Idx.rangeLen a.toInt b.toInt : Int) then arrDeref (.arr (some ao)) [Idx.rangePos a.toInt b.toInt i] s
+      else .exc .index_out_of_bounds { s with raised := .index_out_of_bounds :: s.raised } := by
+  by_cases hneg : i < 0
+  · have h1 : ¬ (0 ≤ i ∧ i < (Idx.rangeLen a.toInt b.toInt : Int)) := by omega
+    simp only [sliceDeref, List.any_cons, List.any_nil, Bool.or_false, hneg, decide_true, if_true, h1, if_false]
+    rfl
+  · by_cases hc : 0 ≤ i ∧ i < (Idx.rangeLen a.toInt b.toInt : Int)
+    · simp only [sliceDeref, List.any_cons, List.any_nil, Bool.or_false, hneg, decide_false, Bool.false_eq_true, if_false,
+        bind_eq, M.bind, load_ok so s _ hs, rngBounds_ok s ro lf lt a b hr hf ht, rangePositions, sliceRangeM_single _ _ _ hov,
+        if_pos hc, pure, M.pure]
+    · simp only [sliceDeref, List.any_cons, List.any_nil, Bool.or_false, hneg, decide_false, Bool.false_eq_true, if_false,
+        bind_eq, M.bind, load_ok so s _ hs, rngBounds_ok s ro lf lt a b hr hf ht, rangePositions, sliceRangeM_single _ _ _ hov,
+        if_neg hc]
+      rfl
+
+/-- … in the evaluator's own terms: an index expression on an array reference and one on a slice of it denote the same
+cell, hence `assignment_seen_through_alias` applies to them (kernel-evaluated instances below) -/
+theorem slice_element_is_array_element (n : Nat) (ctx : Ctx) (env : Env) (xs xa : Name) (ls la : Loc) (s : St)
+    (so ao ro lf lt : Loc) (a b : Int32) (i : Int32)
+    (hxs : lookup xs env = some ls) (hxa : lookup xa env = some la)
+    (hls : s.mem[ls]? = some (.slc (some so))) (hla : s.mem[la]? = some (.arr (some ao)))
+    (hs : s.mem[so]? = some (.slcObj ao ro)) (hr : s.mem[ro]? = some (.rngObj #[lf, lt]))
+    (hf : s.mem[lf]? = some (.int a)) (ht : s.mem[lt]? = some (.int b))
+    (hov : inInt32 (a.toInt + i.toInt) = true ∧ inInt32 (a.toInt - i.toInt) = true)
+    (hin : 0 ≤ i.toInt ∧ i.toInt < (Idx.rangeLen a.toInt b.toInt : Int))
+    (li lj : Loc)
+    (hi : s.mem[li]? = some (.int i)) (hj : s.mem[lj]? = some (.int (Int32.ofInt (Idx.rangePos a.toInt b.toInt i.toInt))))
+    (hpos : (Int32.ofInt (Idx.rangePos a.toInt b.toInt i.toInt)).toInt = Idx.rangePos a.toInt b.toInt i.toInt)
+    (xi xj : Name) (hxi : lookup xi env = some li) (hxj : lookup xj env = some lj) :
+    evalE (n + 3) ctx env (.index (.var xs) [.var xi]) s = evalE (n + 3) ctx env (.index (.var xa) [.var xj]) s := by
+  simp only [evalE, evalArgs, hxs, hxa, hxi, hxj, bind_eq, M.bind, pure, M.pure, getInts, getInt, load_ok _ s _ hi,
+    load_ok _ s _ hj, load_ok _ s _ hls, load_ok _ s _ hla, hpos]
+  rw [slice_aliases_array s so ao ro lf lt a b i.toInt hs hr hf ht hov, if_pos hin]
+
+/-- **A loop over `[a .. b]` visits C12's positions in order.**  While nothing assigns the `to` cell, the counter of
+`for (x in [a..b])` / of a generator `x in [a..b]` (start at `from`, one step towards `to`, stop after `to` — `inRange`,
+`stepRange` of the evaluator's loops) takes exactly the values `rangePos a b 0, …, rangePos a b (rangeLen a b − 1)`:
+ascending, descending and one-element ranges alike (`Idx.range_denotation` is about these positions). -/
+theorem range_loop_visits_positions (a b : Int) (fuel : Nat) (hf : Idx.rangeLen a b < fuel) :
+    loopVals (decide (a < b)) b fuel a = (List.range (Idx.rangeLen a b)).map (fun (k : Nat) => Idx.rangePos a b k) :=
+  loopVals_positions a b fuel hf
+
+/-- one iteration of the evaluator's loop over a range is one step of `loopVals`: with the `to` cell holding `t`, the
+loop at counter `cur` either ends (fresh int 0) or binds `x` to a FRESH cell holding `cur`, runs the body, and continues
+at `stepRange asc cur` -/
+theorem for_in_range_step (f : Nat) (ctx : Ctx) (env : Env) (x : Name) (cur : Int) (asc : Bool) (lt : Loc) (t : Int32)
+    (body : Expr) (s : St) (ht : s.mem[lt]? = some (.int t)) :
+    evalForRng (f + 1) ctx env x none cur asc lt body s =
+      if inRange asc cur t.toInt then
+        (do let l ← alloc (.int (Int32.ofInt cur))
+            let _ ← evalE f ctx ((x, l) :: env) body
+            if inInt32 (stepRange asc cur) then evalForRng f ctx env x none (stepRange asc cur) asc lt body
+            else stopM (.crash "range counter overflows int")) s
+      else alloc (.int 0) s := by
+  simp only [evalForRng, bind_eq, M.bind, getInt_ok lt s t ht, rngElem]
+  split <;> rfl
+
+/-- **`[ x | x in [a .. b] ]` is the array of the range's positions.**  The generator loop of a comprehension over a
+range (counter at `from` = `a`, the `to` cell `lt` holding `b`, body `x`, element type int, array object `o` under
+construction with elements `elems`), given enough fuel and no `int` overflow of the counter, ends normally; it
+allocates exactly `rangeLen a b` fresh int cells holding `rangePos a b 0, …, rangePos a b (rangeLen a b − 1)` — C12's
+denotation of the range, ascending, descending or one-element — appends them in this order to the array object, and
+changes nothing else (no output). -/
+theorem comprehension_over_range_denotation (ctx : Ctx) (env : Env) (x : Name) (lt o : Loc) (a : Int) (b : Int32) (f : Nat)
+    (s : St) (d : List Nat) (elems : Array Loc)
+    (ht : s.mem[lt]? = some (.int b)) (ho : s.mem[o]? = some (.arrObj d elems)) (hne : lt ≠ o)
+    (hov : ∀ k : Nat, k < Idx.rangeLen a b.toInt →
+      inInt32 (stepRange (decide (a < b.toInt)) (Idx.rangePos a b.toInt k)) = true)
+    (hf : Idx.rangeLen a b.toInt + 3 ≤ f) :
+    ∃ s', evalGenRng f ctx env x none a (decide (a < b.toInt)) lt [] (.var x) .int o s = .ok () s' ∧
+      s'.mem.size = s.mem.size + Idx.rangeLen a b.toInt ∧
+      s'.mem[o]? = some (.arrObj [elems.size + Idx.rangeLen a b.toInt]
+        (elems ++ ((List.range (Idx.rangeLen a b.toInt)).map (fun k => s.mem.size + k)).toArray)) ∧
+      (∀ k, k < Idx.rangeLen a b.toInt →
+        s'.mem[s.mem.size + k]? = some (.int (Int32.ofInt (Idx.rangePos a b.toInt k)))) ∧
+      (∀ l, l < s.mem.size → l ≠ o → s'.mem[l]? = s.mem[l]?) ∧ s'.out = s.out := by
+  have hlen : ((List.range (Idx.rangeLen a b.toInt)).map (fun (k : Nat) => Idx.rangePos a b.toInt k)).length
+      = Idx.rangeLen a b.toInt := by simp
+  have hpos := loopVals_positions a b.toInt (Idx.rangeLen a b.toInt + 1) (by omega)
+  have hne0 : (List.range (Idx.rangeLen a b.toInt)).map (fun (k : Nat) => Idx.rangePos a b.toInt k) ≠ [] := by
+    intro h
+    have := congrArg List.length h
+    simp [Idx.rangeLen] at this
+  have hrun := genRng_var_run ctx env x (decide (a < b.toInt)) lt o b hne
+    ((List.range (Idx.rangeLen a b.toInt)).map (fun (k : Nat) => Idx.rangePos a b.toInt k)) f a s d elems
+    (by rw [hlen]; exact hpos.symm)
+    (by
+      intro v hv
+      simp only [List.mem_map, List.mem_range] at hv
+      obtain ⟨k, hk, rfl⟩ := hv
+      exact hov k hk)
+    ht ho (by rw [hlen]; exact hf)
+  obtain ⟨g1, g2, g3, g4, g5⟩ := genFold_spec o
+    ((List.range (Idx.rangeLen a b.toInt)).map (fun (k : Nat) => Idx.rangePos a b.toInt k)) s d elems ho
+  refine ⟨_, hrun, ?_, ?_, ?_, g4, g5⟩
+  · rw [g1, hlen]
+  · rw [g2, hlen, if_neg hne0]
+  · intro k hk
+    have := g3 k (by rw [hlen]; exact hk)
+    rw [this]
+    simp
+
+/-- **The bound names of a range parameter are the range's own cells.**  `func f(r[lo .. hi] : range)` called with a range
+whose object holds the cells `lf`, `lt` binds `lo ↦ lf`, `hi ↦ lt` (no copy, no allocation): inside `f` the names read —
+and an assignment through a variable used as the bound changes — the caller's cells. -/
+theorem range_parameter_names_alias_bounds (p : Param) (l o lf lt : Loc) (lo hi : Name) (env : Env) (s : St)
+    (hv : s.mem[l]? = some (.rng (some o))) (ho : s.mem[o]? = some (.rngObj #[lf, lt]))
+    (hc : convTo p.ty (.rng (some o)) = none) (hd : p.dims = [lo, hi]) :
+    bindParams [p] [l] env s = .ok ((hi, lt) :: (lo, lf) :: (p.name, l) :: env) s := by
+  simp only [bindParams, convCell, bindDimsOf, bindDimsCells, rngCells, bind_eq, M.bind, load, hv, ho, hc, hd, pure, M.pure,
+    List.isEmpty_cons, Bool.false_eq_true, if_false, bindNames]
+
+/-- **The bound names of a slice parameter** `s[f .. t] : T` are fresh int cells holding 0 and |to − from| (`ID_DIM_SLICE`):
+the position range of the slice, not the bounds it was built with. -/
+theorem slice_parameter_names (p : Param) (l so ao ro lf lt : Loc) (f t : Name) (a b : Int32) (env : Env) (s : St)
+    (hv : s.mem[l]? = some (.slc (some so))) (hs : s.mem[so]? = some (.slcObj ao ro))
+    (hr : s.mem[ro]? = some (.rngObj #[lf, lt])) (hf : s.mem[lf]? = some (.int a)) (ht : s.mem[lt]? = some (.int b))
+    (hc : convTo p.ty (.slc (some so)) = none) (hd : p.dims = [f, t]) :
+    bindParams [p] [l] env s =
+      .ok ((t, s.mem.size + 1) :: (f, s.mem.size) :: (p.name, l) :: env)
+        { s with mem := (s.mem.push (.int 0)).push (.int (Int32.ofInt (if b.toInt > a.toInt then b.toInt - a.toInt else a.toInt - b.toInt))) } := by
+  simp only [bindParams, convCell, bindDimsOf, bindDimsCells, slcDimCells, bind_eq, M.bind, load, hv, hs, hc, hd, pure, M.pure,
+    List.isEmpty_cons, Bool.false_eq_true, if_false, bindNames, rngBounds_ok s ro lf lt a b hr hf ht, sliceDimVals, allocInts,
+    alloc, Array.size_push]
+  rfl
+
+/-! ### the pipe operator -/
+
+/-- **`x |> f(args)` is `f(x, args)`.**  The arguments are evaluated first (right to left), THEN the piped expression,
+then the function expression; a piped value that is not a tuple becomes the FIRST argument (its cell is passed, as in a
+call). -/
+theorem eval_order_pipe (n : Nat) (ctx : Ctx) (env : Env) (l fe : Expr) (args : List Expr)
+    (s s1 s2 s3 : St) (ls : List Loc) (ll lf : Loc) (v : Val) (fid : Nat) (cells : List Loc)
+    (hargs : evalArgs n ctx env args s = .ok ls s1) (hl : evalE n ctx env l s1 = .ok ll s2)
+    (hv : s2.mem[ll]? = some v) (hnt : ∀ r, v ≠ .rcd r)
+    (hf : evalE n ctx env fe s2 = .ok lf s3) (hclo : s3.mem[lf]? = some (.clo (some (fid, cells)))) :
+    evalE (n + 1) ctx env (.pipe l fe args) s = callClo n ctx fid cells (ll :: ls) s3 := by
+  have hp : pipeArgs ll s2 = .ok [ll] s2 := by
+    simp only [pipeArgs, bind_eq, M.bind, load, hv]
+    cases v <;> first | rfl | exact absurd rfl (hnt _)
+  simp only [evalE, bind_eq, M.bind, hargs, hl, hp, hf, load, hclo, List.singleton_append]
+
+/-- **A piped tuple is unpacked**: `(a, b) |> f(args)` is `f(a, b, args)` — the component CELLS of the tuple become the
+leading arguments (no copy). -/
+theorem pipe_unpacks_tuple (n : Nat) (ctx : Ctx) (env : Env) (l fe : Expr) (args : List Expr)
+    (s s1 s2 s3 : St) (ls : List Loc) (ll lf o : Loc) (fields : Array Loc) (fid : Nat) (cells : List Loc)
+    (hargs : evalArgs n ctx env args s = .ok ls s1) (hl : evalE n ctx env l s1 = .ok ll s2)
+    (hv : s2.mem[ll]? = some (.rcd (some o))) (ho : s2.mem[o]? = some (.recObj "" fields))
+    (hf : evalE n ctx env fe s2 = .ok lf s3) (hclo : s3.mem[lf]? = some (.clo (some (fid, cells)))) :
+    evalE (n + 1) ctx env (.pipe l fe args) s = callClo n ctx fid cells (fields.toList ++ ls) s3 := by
+  have hp : pipeArgs ll s2 = .ok fields.toList s2 := by
+    simp only [pipeArgs, bind_eq, M.bind, load, hv, ho, if_true]; rfl
+  simp only [evalE, bind_eq, M.bind, hargs, hl, hp, hf, load, hclo]
+
+/-- a fault in the arguments: neither the piped expression nor the function expression is evaluated; a fault in the
+piped expression happens after the arguments -/
+theorem eval_order_pipe_fault (n : Nat) (ctx : Ctx) (env : Env) (l fe : Expr) (args : List Expr) (s s1 s2 : St) (ex : Exc)
+    (ls : List Loc) :
+    (evalArgs n ctx env args s = .exc ex s1 → evalE (n + 1) ctx env (.pipe l fe args) s = .exc ex s1) ∧
+    (evalArgs n ctx env args s = .ok ls s1 → evalE n ctx env l s1 = .exc ex s2 →
+      evalE (n + 1) ctx env (.pipe l fe args) s = .exc ex s2) := by
+  constructor
+  · intro h; simp only [evalE, bind_eq, M.bind, h]
+  · intro h1 h2; simp only [evalE, bind_eq, M.bind, h1, h2]
+
 /-! ### non-vacuity: closed programs evaluated by the kernel -/
 
 section Examples
@@ -209,6 +484,127 @@ example : (eval (mk [.bind false "z" (.lit (.int 0)), .expr (.call (.var "f") [p
 /-- out of fuel is reported as such, and more fuel gives the answer -/
 example : (eval (mk [.expr (p 7)]) [] 3).isOutOfFuel := by decide +kernel
 example : (eval (mk [.expr (p 7)]) [] 30).int? = some 7 := by decide +kernel
+
+/-! the pipe operator -/
+
+/-- `p(1) |> f(p(2))` prints 2, 1, then the body's 0, returns 3 — exactly `f(p(1), p(2))` (`eval_order_pipe`) -/
+example : (eval (mk [.expr (.pipe (p 1) (.var "f") [p 2])]) [] 30).out = [50, 13, 10, 49, 13, 10, 48, 13, 10] := by decide +kernel
+example : (eval (mk [.expr (.pipe (p 1) (.var "f") [p 2])]) [] 30).int? = some 3 := by decide +kernel
+/-- `(p(1), p(2)) |> f()` unpacks the tuple: prints 2, 1, 0; returns 3 (`pipe_unpacks_tuple`) -/
+example : (eval (mk [.expr (.pipe (.tuple [p 1, p 2]) (.var "f") [])]) [] 30).out = [50, 13, 10, 49, 13, 10, 48, 13, 10] := by decide +kernel
+example : (eval (mk [.expr (.pipe (.tuple [p 1, p 2]) (.var "f") [])]) [] 30).int? = some 3 := by decide +kernel
+/-- `p(1) |> f(10 / z)` with `z = 0`: the fault in the argument comes first, nothing is printed (`eval_order_pipe_fault`) -/
+example : (eval (mk [.bind false "z" (.lit (.int 0)), .expr (.pipe (p 1) (.var "f") [.bin .div (.lit (.int 10)) (.var "z")])]) [] 30).out
+    = [] := by decide +kernel
+
+/-! ranges and slices -/
+
+private def prt (e : Expr) : Item := .expr (.builtin .print [e])
+private def i (k : Int) : Expr := .lit (.int k)
+private def arr4 : Expr := .arrLit [4] [i 10, i 11, i 12, i 13] .int
+
+/-- `[p(1) .. p(2)]` prints 2 then 1 (`eval_order_range_bounds`) -/
+example : (eval (mk [.bind false "r" (.range [p 1, p 2]), .expr (i 0)]) [] 30).out = [50, 13, 10, 49, 13, 10] := by decide +kernel
+/-- `[7 .. 3][2][0]` is 5 = rangePos 7 3 2; position 5 does not exist (`range_index_denotation`) -/
+example : (eval (mk [.expr (.index (.index (.range [i 7, i 3]) [i 2]) [i 0])]) [] 30).int? = some 5 := by decide +kernel
+example : Idx.rangePos 7 3 2 = 5 ∧ Idx.rangeLen 7 3 = 5 := by decide
+example : (eval (mk [.expr (.index (.index (.range [i 7, i 3]) [i 5]) [i 0])]) [] 30).exc? = some .index_out_of_bounds := by decide +kernel
+example : (eval (mk [.expr (.index (.index (.range [i 7, i 3]) [.un .neg (i 1)]) [i 0])]) [] 30).exc? = some .index_out_of_bounds := by decide +kernel
+/-- `var n = 3; let r = [0 .. n]; n = 5; for (x in r) print(x)` prints 0 … 5: the range holds the cell of `n`
+(`range_sees_assignment_to_bound`) -/
+example : (eval (mk [.bind true "n" (i 3), .bind false "r" (.range [i 0, .var "n"]), .expr (.assign (.var "n") (i 5)),
+    .expr (.forIn "x" (.var "r") (.builtin .print [.var "x"]))]) [] 40).out
+    = [48, 13, 10, 49, 13, 10, 50, 13, 10, 51, 13, 10, 52, 13, 10, 53, 13, 10] := by decide +kernel
+/-- `for (x in [2 .. 0])` visits 2, 1, 0; `[4 .. 4]` has one element (`range_loop_visits_positions`, `for_in_range_step`) -/
+example : (eval (mk [.expr (.forIn "x" (.range [i 2, i 0]) (.builtin .print [.var "x"]))]) [] 40).out
+    = [50, 13, 10, 49, 13, 10, 48, 13, 10] := by decide +kernel
+example : (eval (mk [.expr (.forIn "x" (.range [i 4, i 4]) (.builtin .print [.var "x"]))]) [] 40).out = [52, 13, 10] := by decide +kernel
+example : loopVals (decide ((2 : Int) < 0)) 0 9 2 = [2, 1, 0] ∧ loopVals (decide ((4 : Int) < 4)) 4 9 4 = [4] := by decide
+/-- the `to` bound is re-read before every iteration: `var k = 4; for (x in [0 .. k]) { k = k - 1; print(x) }` prints 0 1 2 -/
+example : (eval (mk [.bind true "k" (i 4), .expr (.forIn "x" (.range [i 0, .var "k"])
+    (.seq [.expr (.assign (.var "k") (.bin .sub (.var "k") (i 1))), prt (.var "x")]))]) [] 40).out
+    = [48, 13, 10, 49, 13, 10, 50, 13, 10] := by decide +kernel
+/-- `let a = [10,11,12,13]; let s = a[3 .. 1]; a[2] = 99; s[1]` is 99, and `s[0] = 7; a[3]` is 7 (`slice_aliases_array`:
+`s[1]` is the cell of `a[rangePos 3 1 1] = a[2]`) -/
+example : (eval (mk [.bind true "a" arr4, .bind false "s" (.slice (.var "a") [i 3, i 1]),
+    .expr (.assign (.index (.var "a") [i 2]) (i 99)), .expr (.index (.var "s") [i 1])]) [] 40).int? = some 99 := by decide +kernel
+example : (eval (mk [.bind true "a" arr4, .bind true "s" (.slice (.var "a") [i 3, i 1]),
+    .expr (.assign (.index (.var "s") [i 0]) (i 7)), .expr (.index (.var "a") [i 3])]) [] 40).int? = some 7 := by decide +kernel
+/-- the slice keeps the array OBJECT: after `a = other` it still shows the old elements (`slice_of_array_shares_object`) -/
+example : (eval (mk [.bind true "a" arr4, .bind false "s" (.slice (.var "a") [i 1, i 2]),
+    .expr (.assign (.var "a") (.arrLit [2] [i 0, i 0] .int)), .expr (.index (.var "s") [i 0])]) [] 40).int? = some 11 := by decide +kernel
+/-- no check when slicing, `index_out_of_bounds` when the element is used: `a[-1 .. 9]` is fine, its element 0 is not -/
+example : (eval (mk [.bind false "s" (.slice arr4 [.un .neg (i 1), i 9]), .expr (.index (.var "s") [i 1])]) [] 40).int? = some 10 := by decide +kernel
+example : (eval (mk [.bind false "s" (.slice arr4 [.un .neg (i 1), i 9]), .expr (.index (.var "s") [i 0])]) [] 40).exc?
+    = some .index_out_of_bounds := by decide +kernel
+/-- slice of a slice, slice of a range (C12 `slice_of_slice`): `a[3 .. 0][1 .. 2]` is `[12, 11]`; `[10 .. 100][0 .. 10][5 .. 10]` starts at 15 -/
+example : (eval (mk [.expr (.forIn "x" (.slice (.slice arr4 [i 3, i 0]) [i 1, i 2]) (.builtin .print [.var "x"]))]) [] 40).out
+    = [49, 50, 13, 10, 49, 49, 13, 10] := by decide +kernel
+example : (eval (mk [.expr (.index (.index (.slice (.slice (.range [i 10, i 100]) [i 0, i 10]) [i 5, i 10]) [i 0]) [i 0])]) [] 40).int?
+    = some 15 := by decide +kernel
+/-- `x[a .. b]` evaluates `x` first (`eval_order_slice`): `{ print(0); arr }[p(1) .. p(2)]` prints 0, 2, 1 -/
+example : (eval (mk [.bind false "s" (.slice (.seq [prt (i 0), .expr arr4]) [p 1, p 2]), .expr (i 0)]) [] 40).out
+    = [48, 13, 10, 50, 13, 10, 49, 13, 10] := by decide +kernel
+/-- a string slice is a new string, descending bounds reverse: `prints("hello"[3 .. 1])` prints `lle` -/
+example : (eval (mk [.expr (.builtin .prints [.slice (.lit (.str [104, 101, 108, 108, 111])) [i 3, i 1]]), .expr (i 0)]) [] 40).out
+    = [108, 108, 101] := by decide +kernel
+/-- a comprehension over a descending range: `[ x * 2 | x in [3 .. 1] ]` is `[6, 4, 2]` -/
+example : (eval (mk [.expr (.forIn "y" (.listcomp (.bin .mul (.var "x") (i 2)) [.gen "x" (.range [i 3, i 1])] .int)
+    (.builtin .print [.var "y"]))]) [] 40).out = [54, 13, 10, 52, 13, 10, 50, 13, 10] := by decide +kernel
+
+/-- the hypotheses of `range_index_denotation` / `range_index_matches_idx` / `range_sees_assignment_to_bound` on a
+concrete store: cells 0, 1 hold 7 and 3, cell 2 is the range object `[7 .. 3]` -/
+private def stR : St := { mem := #[.int 7, .int 3, .rngObj #[0, 1]] }
+example : (rangeDeref (some 2) [2] stR matches .ok 5 _) = true := by
+  rw [range_index_denotation stR 2 0 1 7 3 2 rfl rfl rfl (by decide)]; rfl
+example : (rangeDeref (some 2) [5] stR matches .exc .index_out_of_bounds _) = true := by
+  rw [range_index_denotation stR 2 0 1 7 3 5 rfl rfl rfl (by decide)]; rfl
+example : ∃ l s', rangeDeref (some 2) [2] stR = .ok l s' ∧ s'.mem[stR.mem.size]? = some (.int (Int32.ofInt 5)) ∧
+    (5 : Int) = Idx.rangePos (7 : Int32).toInt (3 : Int32).toInt 2 :=
+  (range_index_matches_idx stR 2 0 1 7 3 2 rfl rfl rfl (by decide) 5).mp (by decide)
+example : ∀ s', store 1 (.int 9) stR = .ok () s' → rngBounds 2 s' = .ok [((7 : Int32).toInt, (9 : Int32).toInt)] s' :=
+  range_sees_assignment_to_bound stR 2 0 1 7 3 9 rfl rfl rfl (by decide)
+/-- the hypotheses of `slice_aliases_array`: cell 4 is the array object `[10, 11, 12]` (element cells 5, 6, 7), cell 3 the
+slice object of `arr[2 .. 0]` over the range object in cell 2 (bound cells 0, 1): its element 1 is the array's cell 6 -/
+private def stS : St := { mem := #[.int 2, .int 0, .rngObj #[0, 1], .slcObj 4 2, .arrObj [3] #[5, 6, 7], .int 10, .int 11, .int 12] }
+example : sliceDeref (some 3) [1] stS = arrDeref (.arr (some 4)) [1] stS := by
+  rw [slice_aliases_array stS 3 4 2 0 1 2 0 1 rfl rfl rfl rfl (by decide)]; rfl
+example : (sliceDeref (some 3) [0] stS matches .ok 7 _) = true ∧ (sliceDeref (some 3) [2] stS matches .ok 5 _) = true := by
+  rw [slice_aliases_array stS 3 4 2 0 1 2 0 0 rfl rfl rfl rfl (by decide),
+    slice_aliases_array stS 3 4 2 0 1 2 0 2 rfl rfl rfl rfl (by decide)]
+  constructor <;> rfl
+example : (sliceDeref (some 3) [3] stS matches .exc .index_out_of_bounds _) = true := by
+  rw [slice_aliases_array stS 3 4 2 0 1 2 0 3 rfl rfl rfl rfl (by decide)]; rfl
+/-- … and of `slice_element_is_array_element`: with `s` (cell 8) the slice, `a` (cell 9) the array, `i = 1`, `j = 1`:
+`s[i]` and `a[j]` are the same computation -/
+private def stE : St := { mem := stS.mem ++ #[.slc (some 3), .arr (some 4), .int 1, .int 1] }
+example : evalE 5 {} [("s", 8), ("a", 9), ("i", 10), ("j", 11)] (.index (.var "s") [.var "i"]) stE
+    = evalE 5 {} [("s", 8), ("a", 9), ("i", 10), ("j", 11)] (.index (.var "a") [.var "j"]) stE :=
+  slice_element_is_array_element 2 {} _ "s" "a" 8 9 stE 3 4 2 0 1 2 0 1 rfl rfl rfl rfl rfl rfl rfl rfl (by decide) (by decide)
+    10 11 rfl rfl (by decide) "i" "j" rfl rfl
+/-- `range_parameter_names_alias_bounds` / `slice_parameter_names` on concrete stores (cell 3 / cell 8 hold the references) -/
+example : bindParams [{ name := "r", ty := .rng, dims := ["lo", "hi"] }] [3] [] { stR with mem := stR.mem.push (.rng (some 2)) }
+    = .ok [("hi", 1), ("lo", 0), ("r", 3)] { stR with mem := stR.mem.push (.rng (some 2)) } :=
+  range_parameter_names_alias_bounds _ 3 2 0 1 "lo" "hi" [] _ rfl rfl rfl rfl
+example : (bindParams [{ name := "s", ty := .slc, dims := ["f", "t"] }] [8] [] stE matches .ok [("t", 13), ("f", 12), ("s", 8)] _) = true := by
+  rw [slice_parameter_names _ 8 3 4 2 0 1 "f" "t" 2 0 [] stE rfl rfl rfl rfl rfl rfl rfl]; rfl
+/-- `func f([lo .. hi] : range) -> int { hi - lo }` applied to `[3 .. 10]` is 7; `func g(s[f .. t] : int) -> int { t }` applied
+to `arr[3 .. 1]` is 2 -/
+example : (eval { recs := [], enums := [], funcs := [
+    .mk 0 "f" [{ name := "", ty := .rng, dims := ["lo", "hi"] }] .int (.bin .sub (.var "hi") (.var "lo")) [],
+    .mk 1 "main" [] .int (.call (.var "f") [.range [i 3, i 10]]) []] } [] 30).int? = some 7 := by decide +kernel
+example : (eval { recs := [], enums := [], funcs := [
+    .mk 0 "g" [{ name := "s", ty := .slc, dims := ["f", "t"] }] .int (.var "t") [],
+    .mk 1 "main" [] .int (.call (.var "g") [.slice arr4 [i 3, i 1]]) []] } [] 30).int? = some 2 := by decide +kernel
+/-- the hypotheses of `comprehension_over_range_denotation` on a concrete store: cell 0 holds `to` = 1, cell 1 is the empty
+array object; from = 3: three new cells 2, 3, 4 hold 3, 2, 1 and the array object lists them -/
+private def stC : St := { mem := #[.int 1, .arrObj [0] #[]] }
+example : ∃ s', evalGenRng 6 {} [] "x" none 3 (decide ((3 : Int) < (1 : Int32).toInt)) 0 [] (.var "x") .int 1 stC = .ok () s' ∧
+    s'.mem.size = 5 ∧ s'.mem[1]? = some (.arrObj [3] #[2, 3, 4]) ∧
+    s'.mem[2]? = some (.int 3) ∧ s'.mem[3]? = some (.int 2) ∧ s'.mem[4]? = some (.int 1) := by
+  obtain ⟨s', h1, h2, h3, h4, _, _⟩ := comprehension_over_range_denotation {} [] "x" 0 1 3 1 6 stC [0] #[] rfl rfl (by decide)
+    (by decide) (by decide)
+  exact ⟨s', h1, h2, h3, h4 0 (by decide), h4 1 (by decide), h4 2 (by decide)⟩
 
 end Examples
 
